@@ -68,7 +68,8 @@ pub fn verdict(texts: &[&str], opts: &SliceOptions) -> Result<(String, f64), (St
 pub fn verdict_both(texts: &[&str], out: &mut CaseOut, fam: &str, describe: &dyn Fn() -> String) -> String {
     let total: usize = texts.iter().map(|t| t.len()).sum();
     // the statement's bound: 20 s for <= 8 KiB of input (every generated input is <= 8 KiB); CPU seconds
-    let limit = 20.0;
+    // (the instrumented build of the memory-safety layer is several times slower: it judges memory accesses only)
+    let limit = if std::env::var_os("MC_SANITIZED_WORKER").is_some() { f64::INFINITY } else { 20.0 };
     let mut class = String::new();
     for json in [false, true] {
         out.steps += 1;
@@ -207,16 +208,42 @@ impl Family for TokenSoups {
 // ---------------------------------------------------------------------------------------------------------------
 // Mutations of valid programs
 
-fn base_programs() -> Vec<Vec<Tok>> {
+fn base_programs() -> Vec<Vec<String>> {
     // token streams of 8 base programs covering every construct
     let sets: [&[usize]; 8] = [&[1, 3, 24], &[4, 5], &[10, 12, 13], &[14, 15, 16], &[17, 19, 20, 21], &[22, 23, 25], &[26, 27, 28, 29, 30], &[31, 32, 33, 37, 39]];
-    sets.iter()
+    let mut v: Vec<Vec<String>> = sets
+        .iter()
         .map(|ks| {
             let p = gen::sequence_program(ks, 0);
             let r = render_program(&p, &Layout::uniform(Sep::Space, Commas::Between));
-            r[0].toks.clone()
+            r[0].toks.iter().map(|t| t.text.clone()).collect()
         })
-        .collect()
+        .collect();
+    // a ninth base whose every documentable element carries a doc comment that is reported WHILE PARSING (malformed
+    // tags and links), so that a lint is on record for each of them when a later token no longer parses
+    let bad = ["/// {@link\n", "/// @param\n", "/// {@link X", "/// @see\n", "/// {@foo S}\n", "/// @returns: {@link"];
+    let mut k = 0;
+    let mut doc = || {
+        k += 1;
+        bad[k % bad.len()].to_string()
+    };
+    let mut t: Vec<String> = vec!["module".into(), "Lints".into()];
+    let mut push = |xs: &[&str], t: &mut Vec<String>| {
+        for x in xs {
+            if *x == "DOC" {
+                t.push(doc());
+            } else {
+                t.push(x.to_string());
+            }
+        }
+    };
+    push(&["DOC", "struct", "S", "{", "DOC", "a", ":", "int32", "DOC", "b", ":", "Sequence", "<", "string", ">", "}"], &mut t);
+    push(&["DOC", "enum", "E", "{", "DOC", "A", "(", "DOC", "f", ":", "int32", ",", "DOC", "g", ":", "S", ")", "DOC", "B", "}"], &mut t);
+    push(&["DOC", "unchecked", "enum", "U", ":", "uint8", "{", "DOC", "P", "=", "1", "DOC", "Q", "}"], &mut t);
+    push(&["DOC", "interface", "I", "{", "DOC", "op", "(", "p", ":", "int32", ")", "->", "(", "r", ":", "int32", ",", "q", ":", "bool", ")", "DOC", "idempotent", "op2", "(", ")", "->", "E", "}"], &mut t);
+    push(&["DOC", "typealias", "T", "=", "Dictionary", "<", "int32", ",", "S", ">", "DOC", "custom", "C"], &mut t);
+    v.push(t);
+    v
 }
 
 fn join_toks(toks: &[String]) -> String {
@@ -243,7 +270,7 @@ pub struct TokenMutations {
 }
 impl TokenMutations {
     pub fn new() -> Self {
-        TokenMutations { bases: base_programs().into_iter().map(|b| b.into_iter().map(|t| t.text).collect()).collect(), alphabet: token_alphabet(), lib: lib_text() }
+        TokenMutations { bases: base_programs(), alphabet: token_alphabet(), lib: lib_text() }
     }
     fn locate(&self, idx: u64) -> (usize, usize) {
         let mut i = idx;
@@ -259,7 +286,7 @@ impl TokenMutations {
 }
 impl Family for TokenMutations {
     fn name(&self) -> String {
-        format!("token-mutations/8 base programs ({} tokens): every deletion, replacement and insertion of each of {} tokens at every position, adjacent swaps", self.bases.iter().map(|b| b.len()).sum::<usize>(), self.alphabet.len())
+        format!("token-mutations/9 base programs, one with a parse-time lint on every documentable element ({} tokens): every deletion, replacement and insertion of each of {} tokens at every position, adjacent swaps", self.bases.iter().map(|b| b.len()).sum::<usize>(), self.alphabet.len())
     }
     fn len(&self) -> u64 {
         self.bases.iter().map(|b| b.len() as u64 + 1).sum()
@@ -322,7 +349,7 @@ pub struct CharMutations {
 }
 impl CharMutations {
     pub fn new(two: bool) -> Self {
-        let mut bases: Vec<String> = base_programs().into_iter().map(|b| join_toks(&b.into_iter().map(|t| t.text).collect::<Vec<_>>())).collect();
+        let mut bases: Vec<String> = base_programs().into_iter().map(|b| join_toks(&b)).collect();
         // layout variants: line-oriented text matters for the character-level hazards
         for b in bases.iter_mut().skip(4) {
             *b = b.replace(" { ", " {\n    ").replace(" } ", "\n}\n");
@@ -550,6 +577,51 @@ impl Family for Soups2 {
 }
 
 
+
+// ---------------------------------------------------------------------------------------------------------------
+// Cost growth through the real binary with a generator (the request is built from the AST: another walk)
+
+pub struct GrowthThroughBinary;
+const GTB_SIZES: [usize; 6] = [4, 16, 32, 64, 128, 180];
+impl Family for GrowthThroughBinary {
+    fn name(&self) -> String {
+        format!("cost-growth-through-the-binary/alias towers (with users) of {:?} levels compiled by the real binary WITH a generator (request encoding), each under the statement's bound", GTB_SIZES)
+    }
+    fn len(&self) -> u64 {
+        GTB_SIZES.len() as u64 * 2
+    }
+    fn hang_secs(&self) -> f64 {
+        90.0
+    }
+    fn describe(&self, idx: u64) -> Value {
+        let fam = if idx % 2 == 0 { "alias-tower-with-users" } else { "alias-tower-of-dictionaries" };
+        json!({"family": fam, "levels": GTB_SIZES[(idx / 2) as usize]})
+    }
+    fn run(&self, idx: u64) -> CaseOut {
+        let fam = if idx % 2 == 0 { "alias-tower-with-users" } else { "alias-tower-of-dictionaries" };
+        let size = GTB_SIZES[(idx / 2) as usize];
+        let fi = GROWTH_FAMILIES.iter().position(|f| *f == fam).unwrap();
+        let text = growth_instance(fi, size);
+        let mut out = CaseOut::new(hash_str(&format!("gtb{idx}")));
+        out.nontrivial = true;
+        let mut sc = Scenario::default();
+        sc.tree.push(("t.slice".into(), crate::proc::Node::File(text.clone().into_bytes())));
+        sc.gens.push(Gen { name: "gen".into(), install: Install::Script(Script(vec![Step::ReadAll, Step::Stdout(encode_reply(&[], &[])), Step::Exit(0)])) });
+        sc.argv = vec!["t.slice".into(), "-G".into(), "{gen0}".into()];
+        let obs = run(&sc, Duration::from_secs(20));
+        let desc = || format!("{fam}, {size} levels, {} bytes of input\nexit {:?} signal {:?} timed_out {}\nstderr {}", text.len(), obs.exit_code, obs.signal, obs.timed_out, truncate(&show_bytes(&obs.stderr), 400));
+        if obs.timed_out {
+            out.violate(format!("c01/cost-growth-through-the-binary/{fam}/no-verdict-within-20s"), desc());
+        } else if let Some(loc) = obs.panic_location() {
+            out.violate(format!("c01/cost-growth-through-the-binary/{fam}/panic@{loc}"), desc());
+        } else if obs.signal.is_some() || obs.exit_code != Some(0) {
+            out.violate(format!("c01/cost-growth-through-the-binary/{fam}/valid-program-not-compiled"), desc());
+        }
+        out.class = format!("{fam}:exit{:?}", obs.exit_code);
+        out
+    }
+}
+
 // ---------------------------------------------------------------------------------------------------------------
 // Every kind of white space (and a few look-alikes) at every position of texts that exercise all three lexers
 
@@ -612,9 +684,9 @@ impl Family for WhitespaceKinds {
 // ---------------------------------------------------------------------------------------------------------------
 // Cost growth
 
-pub const GROWTH_FAMILIES: [&str; 13] = [
+pub const GROWTH_FAMILIES: [&str; 16] = [
     "layered-dag-width-2", "layered-dag-width-3", "fan-in-dag", "deep-sequence-nesting", "deep-parenthesised-if", "deep-if-nesting", "long-alias-chain", "inheritance-lattice-width-2", "many-fields", "many-definitions", "long-doc-comment", "layered-dag-with-back-edge",
-    "deep-dictionary-value-nesting",
+    "deep-dictionary-value-nesting", "alias-tower-of-results", "alias-tower-with-users", "alias-tower-of-dictionaries",
 ];
 
 pub fn growth_instance(fam: usize, size: usize) -> String {
@@ -665,6 +737,27 @@ pub fn growth_instance(fam: usize, size: usize) -> String {
                 s.push_str(&format!("typealias A{i} = A{}\n", i + 1));
             }
             s.push_str(&format!("typealias A{size} = int32\nstruct U {{ a: A0 b: Sequence<A0> }}\n"));
+        }
+        // towers of aliases of two-armed anonymous types: every level shares the level below on both arms
+        "alias-tower-of-results" => {
+            s.push_str("typealias T0 = Sequence<int32>\n");
+            for i in 1..=size {
+                s.push_str(&format!("typealias T{i} = Result<T{}, T{}>\n", i - 1, i - 1));
+            }
+        }
+        "alias-tower-with-users" => {
+            s.push_str("typealias T0 = Sequence<int32>\n");
+            for i in 1..=size {
+                s.push_str(&format!("typealias T{i} = Result<T{}, T{}>\n", i - 1, i - 1));
+            }
+            s.push_str(&format!("struct S {{ f: T{size} g: Sequence<T{size}?> }}\ninterface I {{ op(a: T{size}) -> (x: T{size}, y: bool) }}\nenum E {{ A(x: T{size}) }}\n"));
+        }
+        "alias-tower-of-dictionaries" => {
+            s.push_str("typealias T0 = string\n");
+            for i in 1..=size {
+                s.push_str(&format!("typealias T{i} = Dictionary<int32, Dictionary<string, Result<T{}, Sequence<T{}>>>>\n", i - 1, i - 1));
+            }
+            s.push_str(&format!("struct S {{ f: T{size} }}\n"));
         }
         "inheritance-lattice-width-2" => {
             s.push_str("interface I0a { o0a() }\ninterface I0b { o0b() }\n");
@@ -1062,6 +1155,7 @@ pub fn families(tier: &str) -> Vec<Box<dyn Family>> {
         Box::new(WhitespaceKinds),
         Box::new(BinaryOptions::new(if quick { 2 } else { 6 })),
         Box::new(FileArrangements),
+        Box::new(GrowthThroughBinary),
         Box::new(TokenSoups::new(if quick { 2 } else { 3 }, 0..10)),
         Box::new(TokenMutations::new()),
         Box::new(CharMutations::new(false)),
@@ -1069,6 +1163,17 @@ pub fn families(tier: &str) -> Vec<Box<dyn Family>> {
     ];
     if !quick {
         v.push(Box::new(CharMutations::new(true)));
+    }
+    // memory-safety layer: the same cases in workers built with AddressSanitizer (a crash that depends on what freed
+    // memory happens to hold becomes a crash on every run). quick: the mutations of the lint-rich base program
+    if quick {
+        let tm = TokenMutations::new();
+        let last = tm.bases.last().unwrap().len() as u64 + 1;
+        v.push(Box::new(Sanitized::tail(Box::new(tm), last)));
+    } else {
+        v.push(Box::new(Sanitized::all(Box::new(TokenMutations::new()))));
+        v.push(Box::new(Sanitized::all(Box::new(CharMutations::new(false)))));
+        v.push(Box::new(Sanitized::all(Box::new(TokenSoups::new(2, 0..10)))));
     }
     // C05's graph families: quick = aliases (also with two-armed wrappers), inheritance, the 10-node graphs and all
     // 2-node containment graphs
